@@ -288,11 +288,16 @@ class UnionMatcher(AdditiveBiMatcher):
         bq = b.block_quality()
         while a.is_active() and b.is_active() and aq + bq < minquality:
             if aq < bq:
-                skipped += a.skip_to_quality(minquality - bq)
+                sk = a.skip_to_quality(minquality - bq)
                 aq = a.block_quality()
             else:
-                skipped += b.skip_to_quality(minquality - aq)
+                sk = b.skip_to_quality(minquality - aq)
                 bq = b.block_quality()
+            skipped += sk
+            if not sk:
+                # Nothing moved (e.g. floating point rounding of the
+                # threshold), so looping again cannot make progress
+                break
 
         return skipped
 
@@ -784,11 +789,16 @@ class AndMaybeMatcher(AdditiveBiMatcher):
         bq = b.block_quality()
         while a.is_active() and b.is_active() and aq + bq < minquality:
             if aq < bq:
-                skipped += a.skip_to_quality(minquality - bq)
+                sk = a.skip_to_quality(minquality - bq)
                 aq = a.block_quality()
             else:
-                skipped += b.skip_to_quality(minquality - aq)
+                sk = b.skip_to_quality(minquality - aq)
                 bq = b.block_quality()
+            skipped += sk
+            if not sk:
+                # Nothing moved (e.g. floating point rounding of the
+                # threshold), so looping again cannot make progress
+                break
 
         return skipped
 
